@@ -413,7 +413,49 @@ def h_purity_scenario(case):
     return {'observations': _json.loads(p.stdout.decode('utf-8'))}
 
 
+def h_unit_tables(case):
+    """The quantifier domain of C05: every (culture, type, unit, surface, side) wired into the
+    configuration of each registered number-with-unit model, plus currency ISO / fraction tables."""
+    from recognizers_number_with_unit.number_with_unit.number_with_unit_recognizer import NumberWithUnitRecognizer
+    from recognizers_number_with_unit.resources.base_currency import BaseCurrency
+    rec = NumberWithUnitRecognizer('en-us')
+    entries, pairs = [], []
+    api_of = {'CurrencyModel': 'currency', 'DimensionModel': 'dimension', 'TemperatureModel': 'temperature', 'AgeModel': 'age'}
+    for key in sorted(rec.model_factory.model_factories, key=lambda k: (k.model_type, k.culture)):
+        model = rec.get_model(key.model_type, key.culture, False)
+        for ep in model.extractor_parser:
+            cfg = ep.extractor.config
+            pcfg = ep.parser.config
+            amb = set(x.lower() for x in (cfg.ambiguous_unit_list or []))
+            iso = dict(getattr(pcfg, 'currency_name_to_iso_code_map', None) or {})
+            fracs = dict(getattr(pcfg, 'currency_fraction_code_list', None) or {})
+            for side, table in (('suffix', cfg.suffix_list), ('prefix', cfg.prefix_list)):
+                for unit, spellings in (table or {}).items():
+                    for sp in str(spellings).split('|'):
+                        if not sp.strip():
+                            continue
+                        entries.append({'culture': key.culture, 'type': api_of[key.model_type], 'unit': unit, 'surface': sp, 'side': side,
+                                        'ambiguous': sp.lower() in amb, 'iso': iso.get(unit, ''), 'fraction_code': fracs.get(unit, '')})
+            if key.model_type == 'CurrencyModel':
+                connector = getattr(cfg, 'connector_token', '') or ''
+                inv_frac = {}
+                for unit, code in fracs.items():
+                    inv_frac.setdefault(code, []).append(unit)
+                for unit, code in iso.items():
+                    for fcode in str(BaseCurrency.CurrencyFractionMapping.get(code, '')).split('|'):
+                        for funit in inv_frac.get(fcode, []):
+                            ratio = (getattr(pcfg, 'currency_fraction_num_map', None) or {}).get(funit)
+                            if not ratio:
+                                continue
+                            pairs.append({'culture': key.culture, 'main': unit, 'iso': code, 'fraction': funit, 'ratio': int(ratio),
+                                          'connector': connector,
+                                          'main_surfaces': [sp for sp in str(cfg.suffix_list.get(unit, '')).split('|') if sp.strip() and sp.lower() not in amb][:3],
+                                          'fraction_surfaces': [sp for sp in str(cfg.suffix_list.get(funit, '')).split('|') if sp.strip() and sp.lower() not in amb][:2]})
+    return {'entries': entries, 'pairs': pairs}
+
+
 _HANDLERS = {
+    'unit_tables': h_unit_tables,
     'purity_scenario': h_purity_scenario,
     'registered': h_registered,
     'history': h_history,
